@@ -382,6 +382,57 @@ def subterms(roots: Iterable[T]):
     return order
 
 
+def substitute(roots, mapping: Dict[int, "T"]):
+    """Replace subterms (by id) with the given terms, rebuilding with the smart constructors."""
+    order = sorted(subterms(roots), key=_by_id)
+    new: Dict[int, T] = {}
+    for x in order:
+        if x.id in mapping:
+            new[x.id] = mapping[x.id]
+            continue
+        kids = [a for a in x.args if isinstance(a, T)]
+        if not kids or all(new[k.id] is k for k in kids):
+            new[x.id] = x
+            continue
+        args = [new[a.id] if isinstance(a, T) else a for a in x.args]
+        new[x.id] = rebuild(x.op, args, x.sort)
+    return [new[t.id] for t in roots]
+
+
+def rebuild(op, args, sort):
+    if op == "add":
+        r = args[0]
+        for a in args[1:]:
+            r = add(r, a)
+        return r
+    if op == "mul":
+        r = args[0]
+        for a in args[1:]:
+            r = mul(r, a)
+        return r
+    if op == "neg":
+        return neg(args[0])
+    if op == "div":
+        return div(args[0], args[1])
+    if op == "powi":
+        return powi(args[0], args[1])
+    if op == "sqrt":
+        return sqrt(args[0])
+    if op == "ite":
+        return ite(args[0], args[1], args[2])
+    if op in ("lt", "le"):
+        return _cmp(op, args[0], args[1])
+    if op == "eq":
+        return eq(args[0], args[1])
+    if op == "not":
+        return not_(args[0])
+    if op == "and":
+        return and_(*args)
+    if op == "or":
+        return or_(*args)
+    return mk(op, tuple(args), sort)
+
+
 def free_vars(roots: Iterable[T]):
     return sorted({t for t in subterms(roots) if t.op == "var"}, key=lambda t: t.id)
 
